@@ -292,6 +292,7 @@ def _extra_substrates_miri(prop, tier, seed, t0):
     runs = []
     for (target, q, t, rf, xf) in plan:
         n = q if tier == "quick" else t
+        n = int(n * float(os.environ.get("VERIF_MIRI_SCALE", "1")))
         if n <= 0:
             continue
         per = max(2, (n + D.NCPU - 1) // D.NCPU) if tier == "quick" else 25
